@@ -1,4 +1,5 @@
 // NOT USED: CBMC times out (900 s) - `log.warn(&e)` displays an io::Error (dyn Error vtable dispatch in Display);
+// a second attempt with PathAndMetadata::new stubbed to return a plain ErrorKind error timed out as well (600 s).
 // kept as a record of the attempt (DESIGN.md section 10).
 //! verif child module of crate::dedupe — C04: a group with a file whose metadata cannot be read any more (deleted,
 //! permission lost) is skipped as a whole (bounded stand-in: groups of up to 3 files).
